@@ -37,9 +37,28 @@ def asbuilt():
             except Exception: ev = {}
         rows.append(f"| {pid} | {nth} | {', '.join(c.get('tie_a', [])) or '—'} | {ev.get('evaluations','?')} ({ev.get('distinct_nontrivial','?')}) | {ev.get('oracle_evaluations','?')} | {esc(c.get('not_proved',''))[:700]} |")
     return "\n".join(rows)
+def axioms():
+    ax = {}
+    for f in sorted(glob.glob(os.path.join(ROOT, "evidence", "*.json"))):
+        try: e = json.load(open(f))
+        except Exception: continue
+        for t in e["coverage"].get("trusted_base", []):
+            if t.startswith("axioms reported by Print Assumptions") and ": " in t:
+                for a in t.split(": ", 1)[1].split(", "):
+                    ax.setdefault(a.strip(), set()).add(e["property_id"])
+    logical = {a: ps for a, ps in ax.items() if not re.match(r"(PrimFloat|PrimInt63|FloatAxioms|Uint63|Sint63)\.", a)}
+    rows = ["| axiom (as `Print Assumptions` names it) | declared by | reached from the pinned theorems of |", "|---|---|---|"]
+    for a, ps in sorted(logical.items()):
+        rows.append(f"| `{a}` | Coq standard library | {', '.join(sorted(ps))} |")
+    for grp, what in (("PrimFloat", "primitive binary64 operations (kernel primitives)"), ("FloatAxioms", "stdlib specifications of the primitive floats (`*_spec`, `Prim2SF_*`)"),
+                      ("PrimInt63", "primitive 63-bit integers (kernel primitives; via Flocq/Interval big-integer floats)"), ("Uint63", "stdlib specifications of the primitive integers")):
+        names = sorted(a for a in ax if a.startswith(grp + "."))
+        ps = sorted(set().union(*[ax[a] for a in names])) if names else []
+        if names: rows.append(f"| `{grp}.*` ({len(names)} names, e.g. `{names[0]}`) | Coq standard library: {what} | {', '.join(ps)} |")
+    return "\n".join(rows)
 def main():
     p = os.path.join(ROOT, "DESIGN.md"); s = open(p).read()
-    for name, fn in (("findings", findings), ("seeds", seeds), ("asbuilt", asbuilt)):
+    for name, fn in (("findings", findings), ("seeds", seeds), ("asbuilt", asbuilt), ("axioms", axioms)):
         a, b = f"<!-- GEN:{name} -->", f"<!-- /GEN:{name} -->"
         if a in s and b in s:
             i, j = s.index(a) + len(a), s.index(b)
